@@ -2,7 +2,7 @@
    cong n a b  is  a = b (mod n)  (n | a - b).  The statements are the `..._stmt` definitions of the Proofs files.
    `_partial` = a finite kernel sweep (bound in the statement) of a statement whose full form is kept in ProofsSweep.v. *)
 From Coq Require Import ZArith Znumtheory List.
-From C13 Require Import Model ProofsBase ProofsSqrt ProofsLift ProofsNumTheo ProofsOrder ProofsLogp ProofsPow2 ProofsPk ProofsTS ProofsPrp ProofsPrp1 ProofsAlias ProofsSweep.
+From C13 Require Import Model ProofsBase ProofsSqrt ProofsLift ProofsNumTheo ProofsOrder ProofsLogp ProofsPow2 ProofsPk ProofsTS ProofsPrp ProofsPrp1 ProofsAlias ProofsPrimRoot ProofsSweep.
 Local Open Scope Z_scope.
 
 Theorem C13_powmod_is_power_mod : forall n a e, 0 < n -> 0 <= e -> powmod a e n = a ^ e mod n.   Proof. exact powmod_spec. Qed.
@@ -93,3 +93,5 @@ Theorem C13_sqrootmod_output_as_scratch_distinct_objects : Sqrootmod_scratch_dis
 Print Assumptions C13_sqrootmod_output_as_scratch_distinct_objects.
 Theorem C13_sqrootmod_output_as_scratch_in_place_refuted : Sqrootmod_scratch_inplace_refuted_stmt.   Proof. exact sqrootmod_scratch_inplace_refuted. Qed.
 Print Assumptions C13_sqrootmod_output_as_scratch_in_place_refuted.
+Theorem C13_prim_root_of_odd_prime_is_primitive : Prim_root_prime_stmt.   Proof. exact prim_root_prime. Qed.
+Print Assumptions C13_prim_root_of_odd_prime_is_primitive.
